@@ -177,7 +177,8 @@ def evaluate(plan, o, prefix="C13"):
             spurious += 1
     # ---- S2: attempts only while DISCONNECTED -----------------------------------------------------
     for a in o.attempts:
-        if a["state"] != "DISCONNECTED" and not (a["state"] == "CLOSED"):
+        # (which states exist besides the three named ones - a CONNECTING state ... - is not fixed by the statement)
+        if a["state"] == "CONNECTED":
             v.append(viol(prefix + ".S2" + sfx, a["ev"], "connection attempt #%d started while the client reported %s" %
                           (a["idx"], a["state"])))
             break
@@ -223,23 +224,24 @@ def evaluate(plan, o, prefix="C13"):
         waits = [b["start"] - a["end"] for a, b in zip(o.attempts, o.attempts[1:]) if a["end"] is not None and a["result"] in ("refused", "failed")]
         deadline = t_healthy + max(RECOVER_S, 3.0 * max(waits, default=0.0))
         if o.end_vt >= deadline and not o.crashed:
+            # Judged on how long the client has been away from CONNECTED at the end of the run, not on the instant the
+            # run happens to end: a client that hangs up on its own (idle watchdog) and dials again at once is in
+            # DISCONNECTED for a moment every now and then, which the statement allows.
+            bound = deadline - t_healthy
+            t_state = max(o.samples[-1][1] if o.samples else 0.0, t_healthy)
+            t_note = max(status[-1][1] if status else 0.0, t_healthy)
             last = conns[-1] if conns else None
-            healthy_last = last is not None and last["fault"] is None and not last["entry"].get("busy") \
-                and last["closed_at"] is None
-            if not healthy_last:
+            if o.end_state != "CONNECTED" and o.end_vt - t_state >= bound:
                 why = "no connection was ever accepted" if last is None else (
-                    "the last connection (%d) had %s and no new attempt followed" %
-                    (last["id"], last["fault"][2] if last["fault"] else ("a busy sentinel" if last["entry"].get("busy") else "been closed by the client")))
-                v.append(viol(prefix + ".S4" + sfx, end_ev, "not recovered %.0f virtual s after the last fault (t=%.3f): %s; "
-                              "state=%s, %d attempts, %d unconsumed faulty script entries" %
-                              (o.end_vt - t_healthy, t_healthy, why, o.end_state, len(o.attempts), len(unconsumed_faulty))))
-            else:
-                if o.end_state != "CONNECTED":
-                    v.append(viol(prefix + ".S4" + sfx, end_ev, "gateway healthy since t=%.3f but client.state is %s at t=%.3f" %
-                                  (t_healthy, o.end_state, o.end_vt)))
-                if not status or status[-1][3] != "CONNECTED":
-                    v.append(viol(prefix + ".S4" + sfx, end_ev, "last status notification is %s, not CONNECTED" %
-                                  (status[-1][3] if status else None)))
+                    "the last connection (%d) %s" % (last["id"], ("had " + last["fault"][2]) if last["fault"] else
+                                                     ("was answered with a busy sentinel" if last["entry"].get("busy") else
+                                                      ("had been closed by the client" if last["closed_at"] is not None else "is open"))))
+                v.append(viol(prefix + ".S4" + sfx, end_ev, "not recovered: client.state has been %s for %.0f virtual s at the end of the run "
+                              "(t=%.3f) although the last fault was at t=%.3f; %s; %d attempts, %d unconsumed faulty script entries" %
+                              (o.end_state, o.end_vt - t_state, o.end_vt, t_healthy, why, len(o.attempts), len(unconsumed_faulty))))
+            elif (not status or status[-1][3] != "CONNECTED") and o.end_vt - t_note >= bound:
+                v.append(viol(prefix + ".S4" + sfx, end_ev, "last status notification is %s (t=%.3f), not CONNECTED, %.0f virtual s later "
+                              "and after the last fault (t=%.3f)" % (status[-1][3] if status else None, t_note, o.end_vt - t_note, t_healthy)))
         # ---- delivery: in order, once; complete on the recovered connection ---------------------------
         all_sent = []
         for c in conns:
